@@ -71,8 +71,8 @@ The misses and what was changed (every one is caught now; no check was loosened 
 
 * Round 6 (after the statefulness audit): 17 of 20 caught at once.  C15 (SignatureArray constructor copying a list
   through one np.concatenate: a list mixing uint64 with signed elements is promoted to float64 and indices above
-  2^53 are rounded): ROUND6_C15.  C18 (load_genomeset runs create_all: a genome file that lacks a model table, or is
-  empty, gets tables created by a plain load): ROUND6_C18.  C19 (re-saving an open HDF5Signatures copies the source
+  2^53 are rounded): mixed-dtype lists only had values below 3*2^32 and values near 2^64 only occurred in homogeneous containers; kind `store` now crosses 16 construction / conversion paths with 14 dtype mixes whose values sit at the top of each member's own range.  C18 (load_genomeset runs create_all: a genome file that lacks a model table, or is
+  empty, gets tables created by a plain load): every genome file had the complete schema, where `create_all` issues no DDL; `history-dbschema` now runs loads through five entry points and CLI commands on 37 incomplete or foreign genome files and compares the bytes whatever the outcome of the call.  C19 (re-saving an open HDF5Signatures copies the source
   group's attributes, marker included, before the datasets): ROUND6_C19.
 
 **Behaviour-preserving rewrites (the opposite experiment).**  A check that alarms on correct code is as
